@@ -17,15 +17,7 @@ def genBytes : Nat → Nat → List UInt8 → List UInt8
     let x' := (x * 1103515245 + 12345) % 2147483648
     genBytes n x' (UInt8.ofNat ((x' / 65536) % 256) :: acc)
 
-inductive Call where
-  | write (off : Nat) (data : List UInt8)
-  | read (off len : Nat)
-  | contig (s e : Nat)
-  | free (off : Nat)
-  | block (loc : Nat)
-  | nodeGet (k : Nat)
-  | writeComplete (k : Nat)
-  | freeContent
+abbrev Call := Op
 
 def parseCall (tok : String) : Option Call :=
   match tok.splitOn ":" with
@@ -99,49 +91,30 @@ def snapshot (res : String) (m : MemHdr) : Except Fault String :=
     .ok (res ++ "/" ++ toString m.lowestOffset ++ "/" ++ toString hi ++ "/" ++ toString m.nodes.elements ++ "/" ++
       (if nodes.isEmpty then "-" else ",".intercalate (nodes.map showNode)) ++ ";" ++ showShape m.nodes.head)
 
-def nth? : List MNode → Nat → Option MNode
-  | [], _ => none
-  | a :: _, 0 => some a
-  | _ :: r, k + 1 => nth? r k
+def showRes : Res → String
+  | .wrote => "1"
+  | .fatal => "fatal"
+  | .bytes b => showBytes b
+  | .empty => "empty"
+  | .flag b => if b then "1" else "0"
+  | .lowest n => toString n
+  | .block none => "none"
+  | .block (some (a, n)) => toString a ++ "+" ++ toString n
+  | .pend .done => "1"
+  | .pend .refused => "refused"
+  | .pend .noSuchNode => "none"
+  | .unit => "-"
 
-def stepCall (m : MemHdr) : Call → Except Fault (MemHdr × String)
-  | .write off data =>
-    match m.write off data with
-    | .error f => .error f
-    | .ok (m', none) => .ok (m', "fatal")
-    | .ok (m', some b) => .ok (m', if b then "1" else "0")
-  | .read off len =>
-    if m.nodes.elements = 0 then .ok (m, "empty")
-    else
-      match m.copy off len with
-      | .error f => .error f
-      | .ok (m', none) => .ok (m', "fatal")
-      | .ok (m', some b) => .ok (m', showBytes b)
-  | .contig s e =>
-    match m.hasContigousContentRange s e with
-    | .error f => .error f
-    | .ok (m', b) => .ok (m', if b then "1" else "0")
-  | .free off =>
-    match m.freeDataUpto off with
-    | .error f => .error f
-    | .ok (m', lo) => .ok (m', toString lo)
-  | .block loc =>
-    match m.getBlock loc with
-    | (m', none) => .ok (m', "none")
-    | (m', some n) => .ok (m', toString n.offset ++ "+" ++ toString n.data.length)
-  | .nodeGet k =>
-    match nth? m.nodes.head.inorder k with
-    | none => .ok (m, "none")
-    | some n =>
-      if n.pending then .ok (m, "busy")
-      else .ok ({ m with nodes := { m.nodes with head := MemHdr.setPendingTree true m.nodes.head k } }, "1")
-  | .writeComplete k =>
-    match nth? m.nodes.head.inorder k with
-    | none => .ok (m, "none")
-    | some n =>
-      if !n.pending then .ok (m, "idle")
-      else .ok ({ m with nodes := { m.nodes with head := MemHdr.setPendingTree false m.nodes.head k } }, "1")
-  | .freeContent => .ok (m.freeContent, "-")
+def stepCall (m : MemHdr) (c : Call) : Except Fault (MemHdr × String) :=
+  match step m c with
+  | .error f => .error f
+  | .ok (m', res) =>
+    -- the harness distinguishes the two refusals by name
+    let s := match c, res with
+      | .nodeGet _, .pend .refused => "busy"
+      | .writeComplete _, .pend .refused => "idle"
+      | _, r => showRes r
+    .ok (m', s)
 
 def runShow : MemHdr → List Call → List String → String
   | _, [], acc => " ".intercalate acc.reverse
